@@ -60,6 +60,7 @@ def check_plain(name, plain):
     """well-formedness of the file content as plain YAML; -> list of (kind, what, entry idx)"""
     bad = []
     ports = [str(p) for p in plain.get("ports", [])] if "ports" in plain else None
+    isa = str(plain.get("isa")).lower() if plain.get("isa") else None
     n = 0
     for j, e in enumerate(plain.get("instruction_forms") or []):
         n += 1
@@ -76,6 +77,13 @@ def check_plain(name, plain):
         ops = e.get("operands")
         if ops is not None and not isinstance(ops, list):
             bad.append(("operands", "entry #%d (%s): operands is %r" % (j, e.get("name"), ops), j))
+        elif ops and isa is not None:
+            for k, p in enumerate(ops):
+                prob = RM.pattern_problem(isa, p)
+                if prob:
+                    bad.append(("operand-pattern", "entry #%d (%s), operand %d: %s - no instruction "
+                                "can ever match this entry" % (j, e.get("name"), k + 1, prob), j))
+                    break
     if ports is not None:
         for tab in ("load_throughput", "store_throughput"):
             for r, row in enumerate(plain.get(tab) or []):
@@ -84,6 +92,17 @@ def check_plain(name, plain):
                     "row is not a mapping"
                 if p:
                     bad.append((tab, "%s row %d: %s" % (tab, r, p), -1))
+                elif isa is not None:
+                    pat = {k: v for k, v in row.items() if k not in ("port_pressure", "dst", "src")}
+                    pat["class"] = "memory"
+                    p = RM.pattern_problem(isa, pat)
+                    t = row.get("dst", row.get("src"))
+                    regs = RM.X86_REG_CLASSES if isa == "x86" else RM.A64_PREFIXES
+                    if p is None and t is not None and str(t).lower() not in regs:
+                        p = "register type %r is none of %s" % (t, "/".join(regs))
+                    if p:
+                        bad.append((tab, "%s row %d: %s - the row can never be selected"
+                                    % (tab, r, p), -1))
             d = plain.get(tab + "_default")
             if d is not None:
                 n += 1
